@@ -126,9 +126,96 @@ def rule_t3(ctx, tf: TextFlow) -> None:
     ctx.require(n >= 1, "impute_reaction no longer applies the smiles_standardizer callables")
 
 
+PLACEHOLDERS = {"[H]", "[O]"}
+
+
+def rule_t4(ctx) -> None:
+    """Whole-component removal by a literal that is a real molecule (e.g. OO)
+    is only allowed inside the window of components appended to that side."""
+    from ..cfg import CFG, normal_compare
+
+    ctx.rule("C02-T4", "components equal to a real-molecule literal are only removed from the window the imputer appended to that side", 1)
+    prog = ctx.prog
+    f = prog.func("synrbl.SynRuleImputer.synthetic_rule_constraint.RuleConstraint.reduction_oxidation_rules_modify")
+    cfg = CFG(f.node)
+    n_inst = 0
+    for n in own_nodes(f.node):
+        if not (isinstance(n, ast.Assign) and isinstance(n.value, ast.ListComp) and len(n.targets) == 1 and isinstance(n.targets[0], ast.Name)):
+            continue
+        comp = n.value
+        g = comp.generators[0]
+        if not (isinstance(g.iter, ast.Name) and g.ifs):
+            continue
+        lits = set()
+        for c in g.ifs:
+            for x in ast.walk(c):
+                if isinstance(x, ast.Constant) and isinstance(x.value, str):
+                    lits.add(x.value)
+        real = lits - PLACEHOLDERS
+        lst = g.iter.id
+        if not real:
+            ctx.instance("C02-T4", "filter of %s by placeholder(s) %s" % (lst, sorted(lits)), f.loc(n), ok=True, nontrivial=False)
+            continue
+        n_inst += 1
+        ok, why = _is_added_window(ctx, f, cfg, lst)
+        ctx.instance("C02-T4", "filter of %s by real-molecule literal(s) %s: %s" % (lst, sorted(real), why), f.loc(n), ok=ok)
+        if not ok:
+            ctx.finding(
+                "C02-T4",
+                "RuleConstraint.reduction_oxidation_rules_modify:window:%s" % ",".join(sorted(real)),
+                f.loc(n),
+                "components equal to %s are removed from %r, which is not restricted to the molecules the imputer appended to that side (%s); a given molecule such as hydrogen peroxide can be deleted" % (sorted(real), lst, why),
+            )
+    ctx.require(n_inst >= 1, "no removal of a real-molecule placeholder (OO) found in reduction_oxidation_rules_modify (mechanism changed)")
+
+
+def _is_added_window(ctx, f, cfg, lst: str):
+    from ..cfg import normal_compare
+
+    # lst = X[len(X) - n:]   (first definition; later filters of lst itself are fine)
+    defs = [(st, v) for st, v, i in assignments_to(f, lst) if i is None and not (isinstance(v, ast.ListComp) and isinstance(v.generators[0].iter, ast.Name) and v.generators[0].iter.id == lst) and not isinstance(v, ast.BinOp)]
+    aug_ok = True
+    if len(defs) != 1:
+        return False, "%d defining assignments" % len(defs)
+    v = defs[0][1]
+    if not (isinstance(v, ast.Subscript) and isinstance(v.slice, ast.Slice) and v.slice.upper is None and isinstance(v.value, ast.Name)):
+        return False, "not a tail slice of the side's component list"
+    X = v.value.id
+    lo = v.slice.lower
+    nname = None
+    if isinstance(lo, ast.BinOp) and isinstance(lo.op, ast.Sub) and unparse(lo.left) == "len(%s)" % X and isinstance(lo.right, ast.Name):
+        nname = lo.right.id
+    if nname is None:
+        return False, "lower bound is not len(%s) - <n>" % X
+    # which side is X?
+    side = None
+    for _, xv, _i in assignments_to(f, X):
+        for sub in ast.walk(xv):
+            if isinstance(sub, ast.Subscript) and const_str(sub.slice) in ("products", "reactants"):
+                side = const_str(sub.slice)
+    if side is None:
+        return False, "component list %s is not split from a side field" % X
+    for st, nv, _i in assignments_to(f, nname):
+        if isinstance(nv, ast.Constant) and nv.value == 0:
+            continue
+        guards = cfg.guards(cfg.node_of(st))
+        okg = False
+        for c, p in guards:
+            t = unparse(c)
+            if p and "imputed_side" in t and "not in" in t:
+                okg = True  # no record: direct use, every component counts as added
+            nc = normal_compare(c, p)
+            if nc and nc[1] == "==" and "imputed_side" in unparse(nc[0]) + unparse(nc[2]) and side in (const_str(nc[0]), const_str(nc[2])):
+                okg = True
+        if not okg:
+            return False, "%s = %s is not guarded by imputed_side == %r" % (nname, unparse(nv)[:40], side)
+    return True, "tail window of %s whose length is non-zero only when imputed_side == %r" % (X, side)
+
+
 def check(ctx) -> None:
     pl = Pipeline(ctx)
     tf = TextFlow(ctx, ctx.pipeline_reachable())
     rule_t1(ctx, tf)
     rule_t2(ctx, pl)
     rule_t3(ctx, tf)
+    rule_t4(ctx)
